@@ -1641,6 +1641,11 @@ where
             // CharacterEscape :: IdentityEscape :: [+UnicodeMode] /
             '^' | '$' | '\\' | '.' | '*' | '+' | '?' | '(' | ')' | '[' | ']' | '{' | '}' | '|'
             | '/' => Ok(c),
+            // CharacterEscape :: IdentityEscape :: SourceCharacterIdentityEscape[+NamedCaptureGroups]
+            // excludes k: with named groups in the pattern \k is only a named backreference.
+            'k' if !self.flags.unicode && !self.named_group_indices.is_empty() => {
+                error("Invalid character escape")
+            }
             // CharacterEscape :: IdentityEscape :: SourceCharacterIdentityEscape
             _ if !self.flags.unicode => Ok(c),
             _ => error("Invalid character escape"),
